@@ -26,6 +26,9 @@ pub enum Negative {
     MissingName,
     /// add `use zz_missing_file` to the main file
     MissingFile,
+    /// add `zzq9 :: ns.name` to the main file where `ns` is a module imported by the main file with `use` and `name`
+    /// is a global of the main file that the module does not define
+    ForeignMember(usize),
 }
 
 #[derive(Clone, Serialize, Deserialize)]
@@ -156,6 +159,60 @@ fn apply_negative(files: &mut BTreeMap<String, String>, main: &str, neg: &Negati
             files.insert(main.to_string(), format!("use zz_missing_file\n{}", t));
             true
         }
+        Negative::ForeignMember(k) => {
+            let main_text = files.get(main).cloned().unwrap_or_default();
+            let top_names = |text: &str| -> Vec<String> {
+                text.lines()
+                    .filter(|l| !l.starts_with(' ') && (l.contains(" :: ") || l.contains(" := ")))
+                    .filter_map(|l| l.split_whitespace().next().map(|x| x.trim_end_matches(':').to_string()))
+                    .filter(|n| n.chars().next().map(|c| c.is_lowercase()).unwrap_or(false) && n != "start")
+                    .collect()
+            };
+            let own = top_names(&main_text);
+            // namespaces of the main file bound by `use path` / `use path as ns`, with the module text they name
+            let mut cands: Vec<(String, String)> = Vec::new();
+            for (f, at, _) in import_lines(files) {
+                if f != main {
+                    continue;
+                }
+                let line = main_text.lines().nth(at).unwrap_or("");
+                if !line.starts_with("use ") {
+                    continue;
+                }
+                let path = line.split_whitespace().nth(1).unwrap_or("");
+                let ns = match line.find(" as ") {
+                    Some(i) => line[i + 4..].trim().to_string(),
+                    None => syltmodel::print::module_ns(path),
+                };
+                let target = m.files.iter().find(|mf| {
+                    let shown = syltmodel::print::import_path(&m.files[0], mf, false);
+                    shown == path || format!("/{}", shown.trim_start_matches('/')) == path
+                });
+                if let Some(mf) = target {
+                    let text = files.get(&format!("/p/{}.sy", mf)).cloned().unwrap_or_default();
+                    let theirs = top_names(&text);
+                    // names the module imports with `from .. use ..` are members of its namespace too (re-export)
+                    let imported_there: String = import_lines(files)
+                        .into_iter()
+                        .filter(|(f, _, _)| *f == format!("/p/{}.sy", mf))
+                        .map(|(_, at, n)| text.lines().skip(at).take(n).collect::<Vec<_>>().join(" "))
+                        .collect::<Vec<_>>()
+                        .join(" ");
+                    let reexported = |n: &str| imported_there.split(|c: char| !(c.is_alphanumeric() || c == '_')).any(|w| w == n);
+                    for n in &own {
+                        if !theirs.contains(n) && !reexported(n) {
+                            cands.push((ns.clone(), n.clone()));
+                        }
+                    }
+                }
+            }
+            if cands.is_empty() {
+                return false;
+            }
+            let (ns, name) = cands[k % cands.len()].clone();
+            files.insert(main.to_string(), format!("{}zzq9 :: {}.{}\n", main_text, ns, name));
+            true
+        }
     }
 }
 
@@ -169,9 +226,10 @@ impl Check for C12 {
         let prog = Gen::new(&mut t, crate::c11::toplevel_cfg(tier == Tier::Thorough)).program();
         let modules = module_plan(&mut t, &prog);
         let negative = if t.chance(1, 5) {
-            Some(match t.below(3) {
+            Some(match t.below(5) {
                 0 => Negative::MissingName,
                 1 => Negative::MissingFile,
+                2 | 3 => Negative::ForeignMember(t.below(16)),
                 _ => Negative::DropImport(t.below(16)),
             })
         } else {
@@ -260,7 +318,7 @@ impl Check for C12 {
             if !apply_negative(&mut files, &pf.main, neg, &case.modules) {
                 return Verdict::Discard("negative-not-applicable".into());
             }
-            labels.add(format!("negative:{}", match neg { Negative::DropImport(_) => "drop-import", Negative::MissingName => "missing-name", Negative::MissingFile => "missing-file" }));
+            labels.add(format!("negative:{}", match neg { Negative::DropImport(_) => "drop-import", Negative::MissingName => "missing-name", Negative::MissingFile => "missing-file", Negative::ForeignMember(_) => "foreign-member" }));
             let nout = compile(&Project { files: files.clone(), main: pf.main.clone(), std: true, require: None });
             return match nout {
                 Outcome::Rejected { bytes_written, .. } => {
@@ -271,7 +329,7 @@ impl Check for C12 {
                     }
                 }
                 Outcome::Accepted(_) => Verdict::Violation {
-                    signature: format!("C12/negative-accepted/{}", match neg { Negative::DropImport(_) => "name-visible-without-import", Negative::MissingName => "import-of-missing-name", Negative::MissingFile => "import-of-missing-file" }),
+                    signature: format!("C12/negative-accepted/{}", match neg { Negative::DropImport(_) => "name-visible-without-import", Negative::MissingName => "import-of-missing-name", Negative::MissingFile => "import-of-missing-file", Negative::ForeignMember(_) => "member-of-other-file-through-namespace" }),
                     detail: format!("a project that must be rejected ({:?}) is accepted\n{}", neg, show(&files)),
                 },
                 Outcome::Panicked { .. } => Verdict::Discard("compiler-panicked".into()),
@@ -368,7 +426,7 @@ impl Check for C12 {
          `exports.sy`, parenthesised multi-line import lists; import cycles and diamonds arise from the partition. Oracle: the project is \
          accepted and its mini-Lua trace equals the reference interpreter's trace of the program (which is file-agnostic); a project \
          rejected although its single-file rendering is accepted is a violation. 1 case in 5 is negative: one import statement is deleted, \
-         or `from m use zz_nope` / `use zz_missing_file` is added; oracle: rejected with zero bytes. non-trivial = >= 2 files and >= 2 \
+         or `from m use zz_nope` / `use zz_missing_file` is added, or `ns.x` is written for a global x of the main file that module ns does not define; oracle: rejected with zero bytes. non-trivial = >= 2 files and >= 2 \
          import styles, or an import cycle or diamond, or a negative case; distinct by case hash"
             .into()
     }
